@@ -30,8 +30,8 @@ Theorem filename_digits_in_table : forall s : str, Forall (fun d => (d < 32)%N) 
 Proof. exact code_digits_lt. Qed.
 Print Assumptions filename_digits_in_table.
 
-(* Turning persistence on is invisible: for every operation sequence in which
-   each read of an item follows a write of it (C02), every read returns the same
+(* Turning persistence on is invisible: for every sequence of set / get / try_get operations in which
+   each get of an item follows a set of it (C02; try_get is unrestricted), every read returns the same
    value with persistence on as with it off — whatever stale files the build
    directory holds, whichever items share a file name, and whatever reading a
    file back would yield — and no read panics. *)
@@ -45,7 +45,7 @@ Proof. exact Proofs.persist_transparent. Qed.
 Print Assumptions persist_transparent.
 
 Example persist_nonvacuous :
-  gets_after_sets N [] [OSet N 1 5; OGet N 1; OSet N 2 7; OSet N 1 6; OGet N 1; OGet N 2]%N = true.
+  gets_after_sets N [] [OTry N 3; OSet N 1 5; OGet N 1; OSet N 2 7; OTry N 2; OSet N 1 6; OGet N 1; OGet N 2]%N = true.
 Proof. reflexivity. Qed.
 
 (* Kerning-instance file names (after the repair of the two-decimal format,
